@@ -537,6 +537,8 @@ pub fn run(tier: &str, seed: u64, out: &mut Out) {
         (2, vec![IOStatus::Party(0), IOStatus::Party(1)], vec![IOStatus::Party(2)]),
         (4, vec![IOStatus::Party(0), IOStatus::Party(1), IOStatus::Public], vec![IOStatus::Party(2)]),
         (9, vec![IOStatus::Party(1)], vec![IOStatus::Party(2)]),
+        // several output parties, the revealing one not party 0: the third party must learn nothing
+        (2, vec![IOStatus::Party(0), IOStatus::Party(1)], vec![IOStatus::Party(1), IOStatus::Party(2)]),
         (2, vec![IOStatus::Party(0), IOStatus::Party(1)], vec![IOStatus::Party(0)]),
         (0, vec![IOStatus::Party(0), IOStatus::Party(1)], vec![IOStatus::Party(2)]),
         (0, vec![IOStatus::Party(1), IOStatus::Party(2)], vec![IOStatus::Party(1)]),
@@ -545,11 +547,12 @@ pub fn run(tier: &str, seed: u64, out: &mut Out) {
         (3, vec![IOStatus::Party(0), IOStatus::Party(1), IOStatus::Party(2)], vec![]),
         (8, vec![IOStatus::Party(1), IOStatus::Party(2)], vec![IOStatus::Party(2)]),
         (4, vec![IOStatus::Party(0), IOStatus::Party(1), IOStatus::Party(2)], vec![IOStatus::Party(2)]),
+        (0, vec![IOStatus::Party(0), IOStatus::Party(1)], vec![IOStatus::Party(2), IOStatus::Party(1)]),
         (5, vec![IOStatus::Party(1), IOStatus::Party(2), IOStatus::Party(0)], vec![IOStatus::Party(0)]),
         (6, vec![IOStatus::Party(0), IOStatus::Party(1), IOStatus::Party(2)], vec![IOStatus::Party(1)]),
         (7, vec![IOStatus::Party(0), IOStatus::Party(1), IOStatus::Party(2)], vec![IOStatus::Party(2)]),
     ];
-    let (take, max_cells) = match tier { "thorough" => (cfgs.len(), 18), "search" => (cfgs.len(), 20), _ => (5, 13) };
+    let (take, max_cells) = match tier { "thorough" => (cfgs.len(), 18), "search" => (cfgs.len(), 20), _ => (6, 13) };
     for (kind, owners, outs) in cfgs.into_iter().take(take) {
         enumerate_views(kind, &owners, &outs, out, max_cells);
     }
